@@ -28,6 +28,10 @@ import (
 type structEncoder struct {
 	fields   []FieldAccessor
 	metadata []byte
+	// a named struct encoder is published before its fields are computed (a
+	// recursive type needs its own encoder for them): the lock is held until it
+	// is complete, so that nobody encodes with a half-built encoder
+	sync.RWMutex
 }
 
 func (valenc *structEncoder) Encode(enc *Encoder, v interface{}) {
@@ -35,7 +39,9 @@ func (valenc *structEncoder) Encode(enc *Encoder, v interface{}) {
 }
 
 func (valenc *structEncoder) Write(enc *Encoder, v interface{}) {
-	fields := valenc.fields
+	valenc.RLock()
+	fields, metadata := valenc.fields, valenc.metadata
+	valenc.RUnlock()
 	n := len(fields)
 	t := reflect.TypeOf(v)
 	st := t
@@ -46,7 +52,7 @@ func (valenc *structEncoder) Write(enc *Encoder, v interface{}) {
 	}
 	var r = enc.WriteStructType(st, func() {
 		enc.AddReferenceCount(n)
-		enc.buf = append(enc.buf, valenc.metadata...)
+		enc.buf = append(enc.buf, metadata...)
 	})
 	enc.SetReference(v)
 	p := reflect2.PtrOf(v)
@@ -86,6 +92,8 @@ func getNamedStructEncoder(t reflect.Type) ValueEncoder {
 
 func newNamedStructEncoder(t reflect.Type, name string, tag ...string) *structEncoder {
 	encoder := &structEncoder{}
+	encoder.Lock()
+	defer encoder.Unlock()
 	registerNamedStructEncoder(t, encoder)
 	if verifhook.On {
 		verifhook.Gate("io.structEncoderPublished", t)
